@@ -10,6 +10,17 @@ let init () =
     | [x; y; w; h; qx; qy] ->
         b_out (rr_ellipse_contains { px = z_in x; py = z_in y } { sw = z_in w; sh = z_in h } { px = z_in qx; py = z_in qy })
     | _ -> "BAD-ARGS");
+  register "ok_rr_new" (fun a ->
+    let (r, _) = C05_rrect.rr_in a in if rr_arith_ok r then "OK" else "PANIC");
+  register "ok_rr_contains_tl" (fun a ->
+    match a with
+    | [x; y; w; h; ra; rb; qx; qy] ->
+        let z = { sw = z_in "0"; sh = z_in "0" } in
+        let r = { rr_rect = { tl = { px = z_in x; py = z_in y }; sz = { sw = z_in w; sh = z_in h } };
+                  rr_corners = { r_tl = { sw = z_in ra; sh = z_in rb }; r_tr = z; r_br = z; r_bl = z } } in
+        let p = { px = z_in qx; py = z_in qy } in
+        if rr_arith_ok r && quadrant_contains_arith_ok (rrc_new r).c_tl p then "OK" else "PANIC"
+    | _ -> "BAD-ARGS");
   register "rr_ellipse_map" (fun a ->
     match a with
     | [x; y; w; h] ->
